@@ -874,11 +874,22 @@ func TestVerifC16(t *testing.T) {
 	if r.Replay != "" {
 		var rp c16Case
 		r.LoadReplay(&rp)
+		if strings.HasPrefix(rp.Placement, "card-") {
+			newCtx().c16RunCard(rp.Subset[0], strings.TrimPrefix(rp.Placement, "card-"))
+			return
+		}
 		l := c16Layer{AllRanges: true, Opts: c16Opts{Limits: []int{0, 1, 2}, Unsorted: true, Chunked: true}}
 		newCtx().runUnit(l, rp.Subset, rp.Placement, &rp)
 		return
 	}
 	c16SelfTest(t, u, ms)
+	// high-cardinality part (serial, cheap): one label with 31..97 values in a block and in the head
+	for _, n := range c16CardSizes {
+		for _, p := range []string{"block", "head"} {
+			newCtx().c16RunCard(n, p)
+		}
+	}
+	r.Set("cardinality_cases", fmt.Sprintf("label v with %v distinct values x {block, head}: Select for every value, 20 single matchers, 8 pairs; LabelValues (limits 0,1,33) and LabelNames with each list", c16CardSizes))
 	layers := c16Plan(r)
 	var units []c16Unit
 	var planned int64
